@@ -116,6 +116,9 @@ def run(rep, tier, rng):
                     o = c.observe(lambda: a.__radd__(b2))
                     add(f"check_sp_radd {cdims} {cq(x, va)} {cq(y, vb)} {tol} {obs_t(o, enc_ptr)}",
                         dict(base, op="__radd__", py="a.__radd__(b)", pyab=pyab, obs=repr(o)[:300]), ("radd", al, d, tuple(x), tuple(y), va, vb))
+                    o = c.observe(lambda: a.__rsub__(b2))          # b - a through the reflected operator
+                    add(f"check_sp_bin {cdims} BSub {cq(y, vb)} (optr {cq(x, va)}) false {tol} {obs_t(o, enc_ptr)}",
+                        dict(base, op="__rsub__", py="a.__rsub__(b)", pyab=pyab, obs=repr(o)[:300]), ("rsub", al, d, tuple(x), tuple(y), va, vb))
                     o = c.observe(lambda: a.bind(b2))
                     add(f"check_sp_bin {cdims} BMul {cq(x, va)} (optr {cq(y, vb)}) false {tol} {obs_t(o, enc_ptr)}",
                         dict(base, op="bind", py="a.bind(b)", pyab=pyab, obs=repr(o)[:300]), ("bind", al, d, tuple(x), tuple(y), va, vb))
